@@ -238,3 +238,84 @@ def site_snapshots(tier="quick"):
                 ev.append({"e": "exception", "msg": "%s: %s" % (type(ex).__name__, str(ex)[:200])})
             traces.append(ev); labels.append(lab)
     return labels, traces
+
+
+# ---------------------------------------------------------------------------------------------------------------------------
+# the pools themselves: derived from the matrix parameters, cached, bulk pool overridable (SitePools.tla / SitePools_Trace.tla)
+PVM = {1: 1.0e-5, 2: 2.0e-5}
+PX0 = {1: 0.01, 2: 0.03}       # chosen so that no two (composition, volume) pairs give the same automatic bulk density
+PGRAIN = {1: 50.0, 2: 100.0}
+PDISL = {1: 1.0e12, 2: 1.0e14}
+PBULK = {7: 1.0e20}
+POOLS = {"disl": "dislocationN0", "gbarea": "GBareaN0", "gbedge": "GBedgeN0", "gbcorner": "GBcornerN0"}
+POOL_ALPHABET = ([("vm", v) for v in PVM] + [("x0", x) for x in PX0] + [("bulk", 7)] + [("grain", g) for g in PGRAIN] + [("disl", d) for d in PDISL]
+                 + [("read", p) for p in list(POOLS) + ["bulk"]])
+
+
+def _pool_formula(ns, pool, vm, grain, disl):
+    g = PGRAIN[grain] * 1e-6 if grain else None
+    if pool == "disl": return PDISL[disl] * (AVO / PVM[vm]) ** (1 / 3)
+    if pool == "gbarea": return ns.grainBoundaryDensity(g, 1) * (AVO / PVM[vm]) ** (2 / 3)
+    if pool == "gbedge": return ns.grainEdgeDensity(g, 1) * (AVO / PVM[vm]) ** (1 / 3)
+    return ns.grainCornerDensity(g, 1)
+
+
+def pool_history(ops, grain0=2, disl0=1):
+    from kawin.precipitation.PrecipitationParameters import MatrixParameters
+    ev = [{"e": "init", "grain": grain0, "disl": disl0}]
+    try:
+        m = MatrixParameters(["B"])
+        ns = m.nucleationSites
+        ns.setGrainSize(PGRAIN[grain0], 1)
+        ns.setDislocationDensity(PDISL[disl0])
+        cur = {"vm": 0}
+        for (op, arg) in ops:
+            e = {"e": "op", "op": op, "arg": arg}
+            if op == "vm":
+                m.volume.setVolume(PVM[arg], VolumeParameter.MOLAR_VOLUME, 4); cur["vm"] = arg
+            elif op == "x0": m.initComposition = PX0[arg]
+            elif op == "bulk": ns.setBulkDensity(PBULK[arg])
+            elif op == "grain": ns.setGrainSize(PGRAIN[arg], 1)
+            elif op == "disl": ns.setDislocationDensity(PDISL[arg])
+            else:
+                if arg != "bulk" and arg != "gbcorner" and cur["vm"] == 0:
+                    continue          # documented error (volume needed): not part of the histories
+                if arg == "bulk":
+                    v = ns.bulkN0
+                    got = ["unset"]
+                    if v is not None:
+                        if any(abs(float(v) - b) <= 1e-9 * b for b in PBULK.values()):
+                            got = ["user", [k for k, b in PBULK.items() if abs(float(v) - b) <= 1e-9 * b][0]]
+                        else:
+                            got = ["unknown"]
+                            for x, xv in PX0.items():
+                                for vmk, vmv in PVM.items():
+                                    if abs(float(v) - xv * AVO / vmv) <= 1e-9 * float(v):
+                                        got = ["auto", x, vmk]
+                else:
+                    v = float(getattr(ns, POOLS[arg]))
+                    got = [-1, -1]
+                    for vmk in PVM:
+                        for k2 in (PDISL if arg == "disl" else PGRAIN):
+                            want = _pool_formula(ns, arg, vmk, k2 if arg != "disl" else None, k2 if arg == "disl" else None)
+                            if abs(v - want) <= 1e-9 * want:
+                                got = [0 if arg == "gbcorner" else vmk, k2]
+                e["got"] = got
+            ev.append(e)
+    except Exception as ex:  # noqa
+        ev.append({"e": "exception", "msg": "%s: %s" % (type(ex).__name__, str(ex)[:200])})
+    return ev
+
+
+def gen_pool_histories(rng, tier):
+    hist = []
+    L = 3 if tier == "quick" else 4
+    setters = [o for o in POOL_ALPHABET if o[0] != "read"]
+    reads = [o for o in POOL_ALPHABET if o[0] == "read"]
+    # read, change one parameter, read again -- after a volume has been set
+    for v0 in PVM:
+        for r1, s, r2 in itertools.product(reads, setters, reads):
+            hist.append([("vm", v0), ("x0", 1), r1, s, r2])
+    for _ in range(300 if tier == "quick" else 3000):
+        hist.append([rng.choice(POOL_ALPHABET) for _ in range(rng.randint(3, 8))])
+    return hist
